@@ -5,6 +5,7 @@ the tree given as ``root`` on every run; nothing is imported or executed."""
 import ast
 import builtins
 import os
+from .normalize import normalize
 
 
 class AnalysisError(Exception):
@@ -178,7 +179,7 @@ class Module:
         self.path = path
         self.relpath = os.path.relpath(path, program.root)
         self.source = source
-        self.tree = ast.parse(source, filename=path)
+        self.tree = normalize(ast.parse(source, filename=path))
         self.funcs = {}  # qualname -> FuncInfo
         self.classes = {}  # name -> ClassInfo
         self.imports = {}  # local name -> ("mod", modname) | ("from", modname, attr)
